@@ -171,7 +171,7 @@ pub fn body(sc: QScenario, obs: Arc<Mutex<QObs>>) {
     let mut ps = Vec::new();
     let mut next_id = 0u32;
     for (pi, (d, n)) in sc.producers.iter().enumerate() {
-        let ids: Vec<u32> = (0..*n as u32).map(|i| (pi as u32 + 1) * 100 + i).collect();
+        let ids: Vec<u32> = (0..*n as u32).map(|i| (pi as u32 + 1) * 1_000_000 + i).collect();
         next_id += ids.len() as u32;
         obs.lock().unwrap().pushed.extend(ids.iter());
         let (q, d) = (q.clone(), *d);
@@ -195,7 +195,7 @@ pub fn body(sc: QScenario, obs: Arc<Mutex<QObs>>) {
         }));
     }
     if !sc.churn.is_empty() {
-        let ids: Vec<u32> = (0..sc.churn.len() as u32).map(|i| 900 + i).collect();
+        let ids: Vec<u32> = (0..sc.churn.len() as u32).map(|i| 9_000_000 + i).collect();
         {
             let mut o = obs.lock().unwrap();
             for (i, (_, unb)) in sc.churn.iter().enumerate() {
@@ -316,7 +316,7 @@ pub fn judge(sc: &QScenario, o: &QObs, res: &RunResult, which: &str) -> Vec<(Str
         for ci in 0..sc.consumers.len() {
             let mine: Vec<u32> = o.calls.iter().filter(|c| c.consumer == ci).filter_map(|c| c.returned.and_then(|r| r.0)).collect();
             for p in (1..=sc.producers.len() as u32).chain(std::iter::once(9)) {
-                let of_p: Vec<u32> = mine.iter().copied().filter(|x| x / 100 == p).collect();
+                let of_p: Vec<u32> = mine.iter().copied().filter(|x| x / 1_000_000 == p).collect();
                 let mut s = of_p.clone();
                 s.sort();
                 if s != of_p {
@@ -571,6 +571,15 @@ pub fn scenarios_c07(tier: Tier) -> Vec<QScenario> {
         }
     }
     v.extend(churn_scenarios("C07", tier));
+    // magnitudes (default schedule): far more elements than the queue's initial capacity (8)
+    // and than any plausible fixed bound, with receivers blocked first or arriving later
+    for total in if tier == Tier::Thorough { vec![100usize, 1030, 5000] } else { vec![100usize, 1030] } {
+        for first in [true, false] {
+            v.push(QScenario { consumers: vec![vec![Call::Pop; total]], producers: vec![(Delay::None, total)], unblocks: vec![], consumers_first: first, churn: vec![], t_ms: T_MS });
+            v.push(QScenario { consumers: vec![vec![Call::Pop; total / 2], vec![Call::PopTimeout; total / 2]], producers: vec![(Delay::None, total / 2), (Delay::HalfT, total / 2)], unblocks: vec![], consumers_first: first, churn: vec![], t_ms: T_MS });
+            v.push(QScenario { consumers: vec![vec![Call::TryPop; total], vec![Call::Pop; total]], producers: vec![(Delay::None, total)], unblocks: vec![], consumers_first: first, churn: vec![], t_ms: T_MS });
+        }
+    }
     v
 }
 
@@ -652,6 +661,13 @@ pub fn scenarios_c17(tier: Tier) -> Vec<QScenario> {
         }
     }
     v.extend(churn_scenarios("C17", tier));
+    // magnitudes (default schedule): many unblock calls against many blocked receivers
+    for total in if tier == Tier::Thorough { vec![100usize, 1030] } else { vec![100usize] } {
+        for first in [true, false] {
+            v.push(QScenario { consumers: vec![vec![Call::Pop]; total], producers: vec![], unblocks: vec![Delay::None; total], consumers_first: first, churn: vec![], t_ms: T_MS });
+            v.push(QScenario { consumers: vec![vec![Call::Pop; total]], producers: vec![(Delay::None, total / 2)], unblocks: vec![Delay::None; total / 2], consumers_first: first, churn: vec![], t_ms: T_MS });
+        }
+    }
     v
 }
 
@@ -660,6 +676,11 @@ pub fn scenarios_c17(tier: Tier) -> Vec<QScenario> {
 /// sharing the queue; larger scenarios charge every departure from the default schedule.
 pub fn bound_for(sc: &QScenario, tier: Tier) -> (Mode, u32) {
     let threads = sc.consumers.len() + sc.producers.len() + sc.unblocks.len() + if sc.churn.is_empty() { 0 } else { 1 };
+    let volume: usize = sc.consumers.iter().map(|c| c.len()).sum::<usize>() + sc.producers.iter().map(|p| p.1).sum::<usize>();
+    if volume > 60 {
+        // magnitude scenarios: default schedule only
+        return (Mode::Strict, 0);
+    }
     match tier {
         Tier::Quick => {
             if threads <= 3 {
@@ -735,7 +756,7 @@ pub fn rule_text(which: &str, tier: Tier, n: usize) -> String {
         "1..3 blocked recv callers x 1..3 unblock calls (exactly min(u,c) must be released); every multiset of 1..2 receiver programs over {pop, pop_timeout(T), try_pop} x 0..1 queued element x 1..2 unblock calls issued at {0, T/2, T-0.5ms, T} x receivers blocked first or racing"
     };
     format!(
-        "real MessagesQueue<u32>, T = {} ms virtual; {}; plus churn scenarios (a thread that pushes or unblocks and at once takes the element back with try_pop, 1..3 times (thorough: 4) at T/4..T/2 intervals, so that blocked receivers {{recv_timeout, recv, two calls, pairs}} are woken for nothing several times during one call; C17 also with timeouts of 1.2 s and 61 s (thorough: 2.5 s, 1 h) and futile wake-ups at 11/12, 1/2, 1/4 of each wait); {} scenarios, each explored for ALL schedules with at most {} deviations (a preemption, an early timeout, an unusual notify_one wake-up, a SPURIOUS return from a condition-variable wait, or a notified timed wait that is scheduled only after its deadline (LATE) costs 1; choosing among the runnable threads when the running one blocks is free for <= 3 threads [chess] and costs 1 otherwise [strict]), bounds iterated from 0; every execution judged at quiescence (conservation, exactly-once, per-producer order, no element or unblock token queued while a receiver is blocked, token accounting, try_pop enters no wait, virtual-time bounds); non-trivial = every scenario has >= 2 threads sharing the queue",
+        "real MessagesQueue<u32>, T = {} ms virtual; {}; plus magnitude scenarios at the default schedule (C07: 100 / 1030 (thorough 5000) elements through one or two receivers; C17: 100 (thorough 1030) unblock calls against as many blocked receivers); plus churn scenarios (a thread that pushes or unblocks and at once takes the element back with try_pop, 1..3 times (thorough: 4) at T/4..T/2 intervals, so that blocked receivers {{recv_timeout, recv, two calls, pairs}} are woken for nothing several times during one call; C17 also with timeouts of 1.2 s and 61 s (thorough: 2.5 s, 1 h) and futile wake-ups at 11/12, 1/2, 1/4 of each wait); {} scenarios, each explored for ALL schedules with at most {} deviations (a preemption, an early timeout, an unusual notify_one wake-up, a SPURIOUS return from a condition-variable wait, or a notified timed wait that is scheduled only after its deadline (LATE) costs 1; choosing among the runnable threads when the running one blocks is free for <= 3 threads [chess] and costs 1 otherwise [strict]), bounds iterated from 0; every execution judged at quiescence (conservation, exactly-once, per-producer order, no element or unblock token queued while a receiver is blocked, token accounting, try_pop enters no wait, virtual-time bounds); non-trivial = every scenario has >= 2 threads sharing the queue",
         T_MS, fam, n, if tier == Tier::Thorough { "4 chess / 3 chess / 3 strict (for <= 2 / 3 / more threads sharing the queue)" } else { "2 chess / 2 strict (for <= 3 / more threads sharing the queue)" }
     )
 }
